@@ -806,6 +806,12 @@ fn gen_pats(r: &mut Rng, with_la: bool, n: usize, numbering: usize) -> Vec<PatSp
         let la = if with_la && r.below(2) == 0 { Some((r.below(3) != 0, r.pick(LAS).to_string())) } else { None };
         out.push(PatSpec { p, tt: tts.remove(0), la });
     }
+    // the same pattern text listed twice (the later copy can never win a tie, but it keeps its own position / token type)
+    if n >= 2 && r.below(6) == 0 {
+        let j = 1 + r.below(n - 1);
+        let i = r.below(j);
+        out[j].p = out[i].p.clone();
+    }
     out
 }
 fn boundaries(s: &str) -> Vec<usize> {
